@@ -223,7 +223,7 @@ def run(tier, V):
             V.violation(key, what, wit)
     cov = {'evaluations': 2 * n, 'distinct_nontrivial': stats.get('ok', 0), 'pairs': n, 'outcomes': stats, 'nontrivial_by_variant_and_class': classes,
            'rule': ('%d pairs of executions: A = prefix, change c, moves, then "." / "N." / "@r" ; B = the same with the keys of c retyped (N times / the register\'s contents typed).  c ranges over the change commands of the vi grammar '
-                    '(operators x motions, counts, register prefixes, inserts with multi-byte text and editing keys, puts, joins, replace, case, shifts, filters that prompt); N in {2,3,5} and large N around the 4 KiB input queue; long registers ending in "." after long inserts; an operator plus non-motion key between the change and "."; deletes typed where they have nothing to delete and repeated where they have; a "." with nothing to repeat before the change; N@r far beyond the queue; register "." overwritten by :y before "."; registers with several '
+                    '(operators x motions, counts, register prefixes, inserts with multi-byte text and editing keys, puts, joins, replace, case, shifts, filters that prompt); N in {2,3,5} and large N around the 4 KiB input queue; long registers ending in "." after long inserts; an operator plus non-motion key between the change and "."; deletes typed where they have nothing to delete and repeated where they have; a "." with nothing to repeat before the change; N@r far beyond the queue; register "." overwritten by :y before "."; a register that runs another register, a register ending in digits, a backslash-named register - each with counts and @@; successful non-changes (undo, marks, given-up prompts) between the change and "."; a repeat that fails on a short line followed by j/k (remembered column); registers with several '
                     'commands and registers that contain "." themselves.  compared: written file incl. a cursor marker and registers a, b, 1, 2, unnamed put at the end.  non-trivial = the text changed.' % n),
            'samples': [{'variant': c['variant'], 'A': common.show(c['a'], 80), 'B': common.show(c['b'], 80)} for _, _, _, c in res[:4]]}
     assumptions = ['equality of two executions of the same binary is the oracle; both runs share all defects that do not involve repetition',
